@@ -482,19 +482,13 @@ def _app_lemma(fold, combine, name):
 
 
 def _prove_app_lemma(fold, combine, extra=()):
-    from pyvc.core import _mk_solver, P_BIG
+    from pyvc.core import check_retry, P_BIG
     b = z3.Const('ind!b', VL)
     x, r = z3.Const('ind!x', V), z3.Const('ind!r', VL)
     stmt = lambda a: fold(T.app(a, b)) == combine(fold(a), fold(b))
     out = []
     for tag, hyps, goal in (('base', [], stmt(VL.nil)), ('step', [stmt(r)], stmt(VL.cons(x, r)))):
-        s = _mk_solver(P_BIG)
-        for e in extra:
-            s.add(e)
-        for h in hyps:
-            s.add(h)
-        s.add(z3.Not(goal))
-        out.append((tag, str(s.check())))
+        out.append((tag, str(check_retry(list(extra) + list(hyps) + [z3.Not(goal)], P_BIG))))
     return out
 
 
